@@ -124,7 +124,7 @@ class Ref:
 def _apply(ref, ev):
     p = ev.split(":")
     if p[0] == "M":
-        return ref.recv(p[1] == "q", p[2], p[3], p[4], p[5], p[6], p[7], p[8])
+        return ref.recv(p[1] == "q", p[2], p[3], p[4], p[5], p[6], p[7], p[8])      # p[9], a lower Via, plays no part
     if p[0] == "C":
         ref.client_start(p[1], p[2])
     elif p[0] == "S":
@@ -148,6 +148,9 @@ def gen_history(rng, length):
             cm = lm if rng.random() < 0.85 else rng.choice(METHODS)
             br = rng.choice(BRANCHES)
             ev = "M:q:%s:%s:%d:%s:%s:%s:%s" % (lm, cm, rng.choice([1, 2]), br, rng.choice("xy"), rng.choice(["f", "g", "-"]), rng.choice(SENT_BY))
+            if rng.random() < 0.3:
+                # the request came through a proxy: a lower Via whose branch / sent-by are those of other messages of the history
+                ev += ":%s!%s" % (rng.choice(SENT_BY), rng.choice(BRANCHES))
         elif r < 0.72 and ref.clients:
             idx = rng.choice(sorted(ref.clients))
             kind = ref.table[ref.clients[idx]]["kind"]
@@ -155,6 +158,9 @@ def gen_history(rng, length):
             status = rng.choice([100, 180, 200, 200, 404, 486])
             br = "@" + idx if rng.random() < 0.85 else rng.choice(BRANCHES)
             ev = "M:r:%d:%s:1:%s:x:f:h1" % (status, cm, br)
+            if rng.random() < 0.3:
+                # somebody else's response which lists our client transaction's Via further down, or ours with a foreign Via below it
+                ev += ":h2!%s" % rng.choice(["@" + idx, "z9hG4bKa", "old1"])
         elif r < 0.78:
             ev = "M:r:%d:%s:1:%s:x:f:h1" % (rng.choice([180, 200, 487]), rng.choice(METHODS), rng.choice(BRANCHES))
         elif r < 0.86 and nclients < 4:
@@ -222,6 +228,15 @@ def gen_cases(rng, tier):
                                     b = "M:%s:%s:%s:1:%s:%s:%s:h1" % (isq, lmb if isq == "q" else "200", lmb, bb, cidb, ftb)
                                     cases.append(["p%d" % k, "c04", a + "," + b])
                                     k += 1
+    # messages that travelled through a proxy: the transaction is identified by the TOP Via only
+    pv = [("M:q:OPTIONS:OPTIONS:1:z9hG4bKa:x:f:h1:h2!z9hG4bKu,M:q:OPTIONS:OPTIONS:1:z9hG4bKb:x:f:h1:h2!z9hG4bKu,M:q:OPTIONS:OPTIONS:1:z9hG4bKa:x:f:h1:h2!z9hG4bKu"),
+          ("M:q:INVITE:INVITE:1:z9hG4bKa:x:f:h1:h2!z9hG4bKb,M:q:INVITE:INVITE:1:z9hG4bKb:x:f:h1:h2!z9hG4bKa,M:q:ACK:ACK:1:z9hG4bKb:x:f:h1:h2!z9hG4bKa"),
+          ("C:0:OPTIONS,M:r:486:OPTIONS:1:z9hG4bKforeign:x:f:h2:h1!@0,M:r:200:OPTIONS:1:@0:x:f:h1"),
+          ("C:0:INVITE,M:r:180:INVITE:1:z9hG4bKforeign:x:f:h2:h1!@0,M:r:180:INVITE:1:@0:x:f:h1:h2!z9hG4bKforeign,M:r:200:INVITE:1:@0:x:f:h1"),
+          ("M:q:OPTIONS:OPTIONS:1:old1:x:f:h1:h2!old1,M:q:OPTIONS:OPTIONS:1:old1:x:f:h2:h1!old1,M:q:OPTIONS:OPTIONS:1:old1:x:f:h1:h1~5070!old2"),
+          ("M:q:BYE:BYE:2:old1:x:f:h1:h2!z9hG4bKa,M:q:BYE:BYE:2:z9hG4bKa:x:f:h2:h1!old1,M:q:BYE:BYE:2:old1:x:f:h1")]
+    for i, evs in enumerate(pv):
+        cases.append(["pv%d" % i, "c04", evs])
     return cases
 
 
